@@ -463,6 +463,11 @@ impl TransformerContext {
         self.current_depth == 0
     }
 
+    /// True when processing an element which is inside another element
+    pub fn is_nested(&self) -> bool {
+        self.current_depth > 1
+    }
+
     pub fn get_top_element(&self) -> Option<SvgElement> {
         self.element_stack.last().cloned()
     }
